@@ -47,7 +47,7 @@ deriving Repr, Inhabited
 
 /-- `SupportedSegmentRegister` -/
 inductive Seg where
-  | ds | es | ss | fs | gs
+  | cs | ds | es | ss | fs | gs
 deriving DecidableEq, Repr, Inhabited
 
 structure MemOperand where
@@ -94,7 +94,7 @@ def instructionOperand (i : Instr) (idx : Nat) : Out AxOperand :=
       | .ss => .ok (some .ss)
       | .fs => .ok (some .fs)
       | .gs => .ok (some .gs)
-      | .cs => .err
+      | .cs => .ok (some .cs)
       | .other => .err
     match base with
     | .panic => .panic
